@@ -655,10 +655,11 @@ func (p *Packer) Unpack(r io.Reader, dst string) (err error) {
 			continue
 		}
 
-		// A file entry replaces a symlink extracted earlier under the same
-		// name rather than being written through it.
+		// A file entry replaces whatever is there under the same name - a
+		// symlink extracted earlier, a file that has other names (hard links)
+		// outside of dst - rather than being written through it.
 		if info.Path != filepath.Clean(dst) {
-			if err := removeSymlink(info.Path); err != nil {
+			if err := removeNonDirectory(info.Path); err != nil {
 				return err
 			}
 		}
@@ -842,6 +843,20 @@ func removeSymlink(path string) error {
 	}
 	if err := os.Remove(path); err != nil {
 		return fmt.Errorf("failed replacing symlink %q: %w", path, err)
+	}
+	return nil
+}
+
+// removeNonDirectory removes path unless it is a directory, so that a file
+// entry gets a file of its own: truncating an existing file in place would
+// also rewrite it under every other name it has.
+func removeNonDirectory(path string) error {
+	fi, err := os.Lstat(path)
+	if err != nil || fi.IsDir() {
+		return nil
+	}
+	if err := os.Remove(path); err != nil {
+		return fmt.Errorf("failed replacing %q: %w", path, err)
 	}
 	return nil
 }
